@@ -71,15 +71,16 @@ ERROR_SHAPE = S.N("iq", {"type": S.CONST("error"), "id": S.ID, "from": S.ONEOF(S
 
 
 class App(YowInterfaceLayer):
+    """the application: the interface layer's own receive() runs (registry first, then entity callbacks, otherwise upward);
+    what it hands upward - an ordinary entity - is recorded"""
+
     def __init__(self):
         super(App, self).__init__()
         self.got = []
         self.log = []
 
-    def receive(self, entity):
-        # interface-layer semantics: registry first, then entity callbacks / upward
-        if not self.processIqRegistry(entity):
-            self.got.append(entity)
+    def toUpper(self, entity):
+        self.got.append(entity)
 
 
 def set_id(tree, ident):
